@@ -365,6 +365,29 @@ def main():
         for m in prev["mutants"]:
             st[m["status"]] = st.get(m["status"], 0) + 1
         print(pid, st)
+    elif cmd == "rerun":
+        # re-run the recorded mutants of the given statuses (default: survived, harness, timeout) against the current check
+        want = set(args[0].split(",")) if args and not args[0].startswith("--") else {"survived", "harness", "timeout"}
+        tier, shards = opt("--tier", "quick"), int(opt("--shards", "16"))
+        prev = json.loads(out_file.read_text())
+        for m in prev["mutants"]:
+            if m["status"] not in want or m.get("triage", "").startswith("equivalent"):
+                continue
+            site = {k: m[k] for k in ("file", "func", "op", "idx", "lineno", "desc")}
+            try:
+                _, before, _ = build_mutant(site)
+            except Exception:  # noqa
+                before = None
+            if before != m.get("before"):
+                m["status"], m["note"] = "stale", "the source changed since this mutant was recorded"
+                print(f"stale     {m['file']}:{m['func']}:{m['lineno']} {m['op']}", flush=True)
+            else:
+                res = run_one(pid, site, tier, shards)
+                old = m["status"]
+                m.update(res)
+                m["repo_head"] = _head()
+                print(f"{old:9s}-> {res['status']:9s} {m['file']}:{m['func']}:{m['lineno']} {m['op']} [{m['desc']}] {res.get('kinds', '')}", flush=True)
+            out_file.write_text(json.dumps(prev, indent=1))
     elif cmd == "show":
         want = args[0] if args else None
         prev = json.loads(out_file.read_text())
